@@ -29,6 +29,8 @@ HL = 75              # length of the swap meta prefix the driver packs (magic+le
 DB_BYTES = 1024 * 1024
 DB_HEADER = 16 * 1024
 KNOWN_LOCAL = os.path.join(VERIF, 'checks', 'C57.known.json')
+# the rebuild machine recurses once per slot: 63-slot images need a deeper Java stack in TLC's worker threads
+os.environ.setdefault('_JAVA_OPTIONS', '-Xss64m')
 
 
 # ---------------------------------------------------------------------------------------------
@@ -611,7 +613,8 @@ def run(ctx):
     irej = list(irej) + list(sirej)
     cases_all = cases + scases
     # evidence
-    ctx.cov['impl_distinct'] = len(cases_all)
+    ctx.cov['impl_distinct'] = sum(1 for c in cases_all if any(v['t'] == 'H' for v in c['img']))   # non-trivial: at least one sane slot header
+    ctx.cov['images_total'] = len(cases_all)
     ctx.cov['images_by_family'] = {}
     for (_, _, _, tag) in items:
         t = tag.split(':')[0]
@@ -628,8 +631,9 @@ def run(ctx):
     ctx.cov['rule'] = ('image families: x2 = every 2-slot image over {E, G, H(key 1..2, first, next, pay, esz, inode metadata ok/bad)} for '
                        'two key->anchor maps; s3/s4/s4k3/s6k3 = seeded random images of 3/4/6 slots with 2/3 keys; x3 (thorough) = every image '
                        'of the TLC quick space; directed = garbage kinds, truncation, metadata sizes/keys/flags, chain shapes; probes = the '
-                       'finding witnesses. All images are distinct (de-duplicated by driver line). TLC additionally explores the machine '
-                       'over the complete bounded image space (mc_states).')
+                       'finding witnesses; stored = a db written by the real Rock::SwapDir (5 entries of 1-3 slots, 63 slots) with 1-3 slot header fields '
+                       'mutated. All images are distinct (de-duplicated by driver line); non-trivial = at least one sane slot header. TLC additionally '
+                       'explores the machine over the complete bounded image space (mc_states).')
     ctx.assumptions += [
         'the index is observed through Ipc::StoreMap (openForReadingAt/readableSlice on a second attachment to the same segments) and by '
         'popping Rock::SwapDir free slots; rebuild runs in the foreground (opt_foreground_rebuild) in one process without -S',
